@@ -15,7 +15,10 @@ vars == <<zlen, stream, last>>
 View == <<zlen, last>>
 MaxK == CHOOSE n \in KLens : \A m \in KLens : m <= n
 Z(n) == R!Bytes(Seed, 60 + (n % 5), n)
-Vias == {"sm3", "pkg", "iface"}
+(* entry points: sm3.Kdf, kdf.Kdf(sm3.New), the hash's own KdfInterface, and the two generic branches of kdf.Kdf that a      *)
+(* foreign hash reaches: "marsh" (hash without KdfInterface but with exportable state: z is absorbed once and the state is    *)
+(* re-imported per counter) and "plain" (neither: Write z, Write ct, Sum, Reset per counter)                                  *)
+Vias == {"sm3", "pkg", "iface", "marsh", "plain"}
 Init == zlen = -1 /\ stream = <<>> /\ last = <<>>
 PickZ(n) == /\ zlen = -1 /\ zlen' = n /\ stream' = K!Stream(Z(n), K!NBlocks(MaxK)) /\ last' = <<>>
 Derive(n, via) ==
